@@ -136,6 +136,8 @@ class History:
                             continue  # would generate: that is a BFS operation, not a probe
                     for optional in ((False, True) if key not in m.res and key not in m.fac else (False,)):
                         plist.append(("get", api, tname, name, optional))
+            if "s_nowait" in self.check.probe_apis or "s_async" in self.check.probe_apis or "nowait" in self.check.probe_apis:
+                plist += [("list", "A"), ("list", "B")]
             exps = [u.m_apply(idx, op) for op in plist]
             gots = await u.send(idx, ("ops", plist))
             for op, got, exp in zip(plist, gots, exps):
